@@ -44,6 +44,29 @@ CLAIMED = {
             "7 embeddings; under inexact embeddings a module sharing an edge with a cell may be listed with ratio 0 (last-bit overlap); "
             "completely blocked dies and dies/netlists rejected at load are outside",
             "DESIGN.md 4 (C03)", ["Geometry", "DieOps", "AllocOps", "InitAlloc", "InitAllocTrace"]),
+    "C10": ("TLA+ spec GlbFloor (InitAlloc/Optimize/Extract/Refine/Stop) model-checked by TLC with Optimize = any solution of the modelled "
+            "constraints; TLC-generated parameter combinations expanded from the repository's glbfloor examples plus seeded random instances "
+            "run through glbfloor under 7 embeddings, snapshots after every step trace-validated by TLC (GlbFloorTrace); TLC-enumerated "
+            "solutions (mirrored ones included) replayed into the real extract_solution",
+            "Every state glbfloor can return (after each optimisation, any max_iter) satisfies the clauses as TLC invariants of the "
+            "step-contract model; every snapshot of real runs that return is judged by TLC (cells disjoint and in die, ratios in [0,1], "
+            "capacity <= 1 within 1e-3, centres in die, fixed modules keep rectangles and fully own exactly their cells, hard modules "
+            "congruent up to mirror); Extract is additionally bound exactly, spec to code, on every solution of small instances.",
+            "runs where the optimiser does not return (GEKKO Solution Not Found, assertion while rebuilding; ~45-55 %) are outside the "
+            "quantifier and counted in coverage.runs.no_result_by_cause; GEKKO never produced a mirrored solution, so the flip path is covered "
+            "by the Extract replay only; thresholds 0.5-0.95, dies 2x3..4x4 grid squares; solver internals not modelled",
+            "DESIGN.md 4 (C10), 6", ["Geometry", "AllocOps", "GlbFloor", "GlbFloorMC", "GlbFloorTrace"]),
+    "C14": ("TLA+ spec Spectral (Seed/Normalize/Step/EndDim/EndTrial/Commit step contracts) model-checked by TLC; TLC-generated netlists plus "
+            "seeded random ones run through Spectral.spectral_layout under 6 float scales; per-trial / per-normalize observations "
+            "(harness-side wrappers) trace-validated by TLC (SpectralTrace)",
+            "The contracts of every step of the spectral machine are TLC invariants on a quantised universe in which an iteration may return "
+            "any vector; every observed normalize result, trial result and committed placement of real runs (connected netlists, >= 4 movable "
+            "modules, discs that fit, trials 1-5, random seeds) is judged by TLC against them (disc in die, fixed unmoved, hard rigid, "
+            "areas/nets equal to the input); an exception for an in-quantifier netlist is reported as clause `returns`.",
+            "contract of a numeric optimiser, no prediction of convergence; observations quantised to 1e-6 die side (tolerance 2e-6); a sample "
+            "of the normalize calls is judged; generated universe replayed as a seeded sample (260 quick / 3600 thorough) plus 90 / 1500 "
+            "random netlists; terminals (zero area) excluded",
+            "DESIGN.md 4 (C14), 6", ["Spectral", "SpectralMC", "SpectralTrace"]),
     "C11": ("TLA+ spec Die (split_refinable_regions as phase-1 step + one action per phase-2 iteration, initial_grid) model-checked by TLC; "
             "requests replayed on real Die objects under 7 embeddings; lists after every call trace-validated by TLC (DieTrace post-conditions)",
             "TLC checks count / parent+tag / per-parent tiling / aspect-ratio / untouched blockages+fixed as invariants of the modelled algorithm "
